@@ -40,6 +40,13 @@ def maskCells (mask : String) (o : Obs) : Obs :=
   if o.length ≤ 1 || mask == "all" then o
   else (o.zipIdx.filter (fun p => maskKeeps mask p.2)).map (·.1)
 
+/-- `rawx s d1 d2`: `RawShortMessage::try_from((u8, U7, U7))` (= `from_bytes`) and `Into<(u8, U7, U7)>` (the stored tuple) -/
+def modelRawx (b : Bytes) : Obs := obsOf do
+  match ← fromBytes rawFactory b with
+  | none => .ok [0]
+  | some m => .ok (1 :: bytesObs (rawImpl.toBytes m))
+def specRawx (b : Bytes) : Obs := if b.status < 128 then [0] else 1 :: bytesObs b
+
 def blkDigest (mask : String) (f : Bytes → Obs) (s : Nat) : UInt64 := Id.run do
   let mut h := fnvInit
   for d1 in [0:128] do
